@@ -174,6 +174,67 @@ Section Check.
                              then [] else [(r_name r, r_trait r, a)]) (assignments n)
       end) promised.
 
+  (* compact rendering for the check script: first falsifying assignment per (type, trait) *)
+  Definition bit (b : bool) : string := if b then "1" else "0".
+  Definition code (a : list bits) : string :=
+    fold_right (fun b acc => bit (b_send b) ++ bit (b_sync b) ++ bit (b_unpin b) ++ acc) "" a.
+  Definition tname (t : trait) : string := match t with Send => "Send" | Sync => "Sync" | Unpin => "Unpin" end.
+  Fixpoint first_per (seen : list string) (l : list (string * trait * list bits)) : list string :=
+    match l with
+    | [] => []
+    | (n, t, a) :: r =>
+        let k := n ++ " " ++ tname t in
+        if existsb (String.eqb k) seen then first_per seen r
+        else (k ++ " " ++ (match a with [] => "-" | _ => code a end)) :: first_per (k :: seen) r
+    end.
+  Definition unsound_summary := first_per [] unsound.
+  Definition incomplete_summary := first_per [] incomplete.
+
   Definition unpinned_futures : list string :=
     flat_map (fun sd => if future_not_unpin sd then [] else [s_name sd]) structs.
 End Check.
+
+(* lifting lemmas: from the boolean case analysis to the quantified statements, generic in the
+   generated data (so that no proof step ever unfolds the tables) *)
+Section Lift.
+  Variable structs : list sdef.
+  Variable impls : list idef.
+
+  Lemma futures_lift :
+    forallb (future_not_unpin structs impls) structs = true ->
+    forall sd, In sd structs -> s_future sd = true ->
+    forall a, In a (assignments (s_nparams sd)) -> holds structs impls Unpin (s_name sd) a = false.
+  Proof.
+    intros H sd Hin Hf a Ha. rewrite forallb_forall in H. specialize (H sd Hin).
+    unfold future_not_unpin in H. rewrite Hf in H. cbn [negb orb] in H.
+    rewrite forallb_forall in H. specialize (H a Ha).
+    destruct (holds structs impls Unpin (s_name sd) a); [discriminate|reflexivity].
+  Qed.
+
+  Lemma sound_lift :
+    forallb (sound_rule structs impls) required = true ->
+    forall r, In r required ->
+    forall n, nparams structs (r_name r) = Some n ->
+    forall a, In a (assignments n) ->
+    holds structs impls (r_trait r) (r_name r) a = true ->
+    r_never r = false /\ bounds_hold (r_bounds r) a = true.
+  Proof.
+    intros H r Hin n Hn a Ha Hh. rewrite forallb_forall in H. specialize (H r Hin).
+    unfold sound_rule in H. rewrite Hn in H. rewrite forallb_forall in H. specialize (H a Ha).
+    rewrite Hh in H. cbn [implb] in H. apply andb_true_iff in H. destruct H as [H1 H2].
+    split; [|exact H2]. destruct (r_never r); [discriminate|reflexivity].
+  Qed.
+
+  Lemma complete_lift :
+    forallb (complete_rule structs impls) promised = true ->
+    forall r, In r promised ->
+    forall n, nparams structs (r_name r) = Some n ->
+    forall a, In a (assignments n) ->
+    bounds_hold (r_bounds r) a = true ->
+    holds structs impls (r_trait r) (r_name r) a = true.
+  Proof.
+    intros H r Hin n Hn a Ha Hb. rewrite forallb_forall in H. specialize (H r Hin).
+    unfold complete_rule in H. rewrite Hn in H. rewrite forallb_forall in H. specialize (H a Ha).
+    rewrite Hb in H. cbn [implb] in H. exact H.
+  Qed.
+End Lift.
